@@ -533,6 +533,9 @@ def judge_dead_probe(rec):
 # --------------------------------------------------------------------------- C09
 
 
+_PARTNER_FATE = {}
+
+
 def judge_c09(rec):
     st = rec.step
     if st["k"] != "povm" or st.get("fault") or st.get("dead_probe"):
@@ -618,6 +621,20 @@ def judge_c09(rec):
         if n in tg or not (w.partner(n) in tg):
             out.append(V("C09", "violated", "unexpected-outcome-key", n, cell=cell, **sig))
     sig["partner_fate"] = "measured" if any(w.partner(n) in tg for n in others) else "kept"
+    # sameness across entry points and layouts: whenever a destructively measured Fock/Polarization has a live
+    # envelope partner that is not itself a target, the partner's fate (measured+reported, or kept alive) must be
+    # the same on every route this run takes
+    if destr and not any(v["status"] == "violated" for v in out):
+        for t in tg:
+            pt = w.partner(t)
+            if pt and pt in names and pt not in tg and w.kind(t) in ("F", "P"):
+                fate = "measured" if pt in others else "kept"
+                route = f"{sig['via']}/{sig['storage']}/{sig['level']}"
+                first = _PARTNER_FATE.setdefault("first", (fate, route))
+                if first[0] != fate:
+                    out.append(V("C09", "violated", "partner-fate-differs-by-route",
+                                 f"destructive POVM on {t}: partner {pt} was {fate} via {route}, but {first[0]} via {first[1]}", cell=cell, **sig))
+                break
     if any(v["status"] == "violated" and v["mode"] in ("nondestructive-destroyed", "bystander-destroyed", "unexpected-outcome-key") for v in out):
         return out
     # expected state of survivors: project partners that were reported, trace out everything destroyed
